@@ -35,6 +35,7 @@ type c18Case struct {
 	Warmup   int    `json:"warmup"`   // the same Parser value first parses this many other streams (the first with an error), drained to Done
 	Err      int    `json:"err"`      // failing-reader: index into c10Errors
 	Skip     int    `json:"skip"`     // seekable: permille of the text already consumed by the caller before parsing
+	NameForm int    `json:"nameform,omitempty"` // odd-name: which spelling of the file name is handed to the parsers
 	BOM      bool   `json:"bom"`      // the text starts with a UTF-8 byte order mark (both parsers must treat it alike)
 }
 
@@ -168,6 +169,26 @@ func checkC18(c c18Case, ctx *vCtx) *vFailure {
 		}
 		defer os.Chdir(old)
 	}
+	oddName := ""
+	if c.Input == "odd-name" {
+		// a file named in a way that is not its cleaned path: ParseFile must open what ParseFileCallback opens
+		dir := filepath.Join(vScratchDir(), "c18-odd")
+		_ = os.RemoveAll(dir)
+		if err := os.MkdirAll(filepath.Join(dir, "other", "sub"), 0o755); err != nil {
+			vFault("mkdir: %v", err)
+		}
+		if err := os.WriteFile(filepath.Join(dir, "f.yaml"), []byte(text), 0o644); err != nil {
+			vFault("write: %v", err)
+		}
+		if err := os.WriteFile(filepath.Join(dir, "other", "f.yaml"), []byte("the other file:\n  x: 1\n"), 0o644); err != nil {
+			vFault("write: %v", err)
+		}
+		if err := os.Symlink(filepath.Join(dir, "other", "sub"), filepath.Join(dir, "link")); err != nil {
+			vFault("symlink: %v", err)
+		}
+		oddName = []string{dir + "/nodir/../f.yaml", dir + "/f.yaml/", "", dir + "/link/../f.yaml", dir + "//f.yaml", dir + "/./f.yaml", dir + "/other/../f.yaml"}[c.NameForm%7]
+		ctx.Labelf("odd-name-form=%d", c.NameForm%7)
+	}
 	closedPath := ""
 	if c.Input == "closed-file" {
 		closedPath = vWriteFile("c18-closed.yaml", text)
@@ -202,6 +223,14 @@ func checkC18(c c18Case, ctx *vCtx) *vFailure {
 			}
 			f.Close()
 			err = parser.ParseStreamCallback(f, cfg, func(n *shared.ParserNode, e error) (bool, error) {
+				if e != nil {
+					return true, e
+				}
+				recs = append(recs, vGotFromNode(n))
+				return false, nil
+			})
+		case "odd-name":
+			err = parser.ParseFileCallback(oddName, cfg, func(n *shared.ParserNode, e error) (bool, error) {
 				if e != nil {
 					return true, e
 				}
@@ -299,6 +328,8 @@ func checkC18(c c18Case, ctx *vCtx) *vFailure {
 			p.ParseFile(missing)
 		case "dash-file", "dash-missing":
 			p.ParseFile("-")
+		case "odd-name":
+			p.ParseFile(oddName)
 		case "fifo":
 			p.ParseFile(fifoPath)
 		case "file":
@@ -468,7 +499,8 @@ func genC18(t *rapid.T) c18Case {
 		case kind == 7:
 			c.Input = "missing-file"
 		default:
-			c.Input = []string{"file", "file", "fifo", "dash-file", "dash-missing"}[rapid.IntRange(0, 4).Draw(t, "filekind")]
+			c.Input = []string{"file", "file", "fifo", "dash-file", "dash-missing", "odd-name", "odd-name"}[rapid.IntRange(0, 6).Draw(t, "filekind")]
+			c.NameForm = rapid.IntRange(0, 6).Draw(t, "nameform")
 			if rapid.Bool().Draw(t, "bad") {
 				c09Plant(t, &d, 1, pool, "plant")
 			}
